@@ -23,6 +23,25 @@ O(st, res) == [st |-> st, res |-> res]
 Arm(s, id) == [s EXCEPT !.pending = TRUE, !.last = s.now,
                         !.burst = IF s.pending THEN @ \cup {id} ELSE {id}]
 
+\* A function whose id is >= 100 calls the debounced function again while it runs (with id + 1000):
+\* "a new call arrives while the callback is still running".  A tick therefore may contain several
+\* runs; they are replayed one by one from the recorded list <<id1, t1, id2, t2, ...>>.
+ReArms(id) == id >= 100 /\ id < 1000
+AfterRun(s, id, t) == LET s1 == [s EXCEPT !.pending = FALSE, !.burst = {}, !.fired = @ + 1] IN
+                      IF ReArms(id) THEN [s1 EXCEPT !.pending = TRUE, !.last = t, !.burst = {id + 1000}] ELSE s1
+RECURSIVE Runs(_, _, _, _)
+\* s: state with s.now = the END of the tick; lo: runs so far happened up to lo; q: the recorded runs left
+Runs(s, lo, q, i) ==
+    IF i > Len(q)
+      THEN \* nothing more ran: fine unless a run is overdue (strictly before the end of the tick)
+           IF s.pending /\ s.last + s.wait < s.now THEN {} ELSE { s }
+      ELSE LET id == q[i]  t == q[i + 1] IN
+           IF s.pending /\ id \in s.burst /\ t >= s.last + s.wait /\ t >= lo /\ t <= s.now
+             THEN Runs(AfterRun(s, id, t), t, q, i + 2) ELSE {}
+TickOutR(s, d, res) ==
+    IF res.p \/ ~res.ok \/ Len(res.s) % 2 # 0 THEN {}
+    ELSE { O(st, res) : st \in Runs([s EXCEPT !.now = @ + d], s.now, res.s, 1) }
+\* the enumerating form (model checker, behaviours without re-arming functions)
 TickOut(s, d) ==
     LET s1  == [s EXCEPT !.now = @ + d]
         due == s.last + s.wait
@@ -40,6 +59,9 @@ Out(s, op) ==
       [] op.n \in {"cancel", "stop"} -> { O([s EXCEPT !.pending = FALSE, !.burst = {}], R(<<>>)) }
       [] op.n = "tick"  -> TickOut(s, op.a[1])
       [] OTHER -> {}
+
+\* with the recorded result at hand (trace validation): ticks are judged by replaying their runs
+OutR(s, op, res) == IF op.n = "tick" THEN TickOutR(s, op.a[1], res) ELSE Out(s, op)
 
 ProjOK(s, p) == p.fired = s.fired
 
